@@ -111,6 +111,10 @@ func Load(dir string, overlay map[string][]byte, goarch string) (*Prog, error) {
 	if len(errs) > 0 {
 		return nil, fmt.Errorf("load: type errors: %s", strings.Join(errs, "; "))
 	}
+	IntBits = 64
+	if goarch == "386" || goarch == "arm" {
+		IntBits = 32
+	}
 	prog, _ := ssautil.AllPackages(pkgs, ssa.BuilderMode(0))
 	prog.Build()
 	sp := prog.Package(pp.Types)
